@@ -50,6 +50,9 @@ pub enum DeserializeError {
     /// The contents of the input data are invalid for the schema.
     #[error("the contents of the input data are invalid for the schema")]
     BadInput,
+    /// The definition of this struct contains itself.
+    #[error("definition of `struct {0}` contains itself")]
+    RecursiveStruct(Identifier),
 }
 
 type StructDefs = AutoMap<StructDef>;
@@ -79,6 +82,7 @@ pub(crate) fn deserialize_struct(
         struct_defs,
         enum_defs,
         bytes,
+        open: Vec::new(),
     };
     let s = ctx.deserialize_struct(name)?;
     if !ctx.bytes.is_empty() {
@@ -175,6 +179,9 @@ struct DeserializeCtx<'a> {
     struct_defs: &'a StructDefs,
     enum_defs: &'a EnumDefs,
     bytes: &'a [u8],
+    /// The structs being deserialized, outermost first. Deserialization follows the
+    /// definitions, so a definition that contains itself would recurse without bound.
+    open: Vec<Identifier>,
 }
 
 impl DeserializeCtx<'_> {
@@ -183,11 +190,16 @@ impl DeserializeCtx<'_> {
             .struct_defs
             .get(&name)
             .ok_or_else(|| DeserializeError::UnknownStruct(name.clone()))?;
+        if self.open.contains(&name) {
+            return Err(DeserializeError::RecursiveStruct(name));
+        }
+        self.open.push(name.clone());
         let mut fields = BTreeMap::new();
         for d in &def.items {
             let v = self.deserialize_value(&d.ty)?;
             fields.insert(d.name.clone(), v);
         }
+        self.open.pop();
         Ok(Struct::new(name, fields))
     }
 
